@@ -41,6 +41,11 @@ OPERATORS_MAP = {
     '<=': operator.le,
 }
 
+# A comparison expression is not associative in XPath 2.0+: no comparison can be an operand of another
+COMPARISON_SYMBOLS = frozenset(OPERATORS_MAP) | {
+    'eq', 'ne', 'lt', 'le', 'gt', 'ge', 'is', '<<', '>>'
+}
+
 register = XPath1Parser.register
 nullary = XPath1Parser.nullary
 infix = XPath1Parser.infix
@@ -75,7 +80,7 @@ def evaluate__and_operator(self: XPathToken, context: ta.ContextType = None) -> 
 @method('<=', bp=30)
 @method('>=', bp=30)
 def led__comparison_operators(self: XPathToken, left: XPathToken) -> XPathToken:
-    if left.symbol in OPERATORS_MAP:
+    if left.symbol in COMPARISON_SYMBOLS:
         raise self.wrong_syntax()
     self[:] = left, self.parser.expression(rbp=30)
     return self
